@@ -16,19 +16,20 @@ theorem wrapped_print (e : Expr) (t : Toks) (hw : wraps e.kind = true) (hv : has
   case unaryOp op e =>
     simp only [print, hv, if_true, ↓reduceIte, bind, Option.bind_eq_some_iff, pure, Option.some.injEq] at h
     obtain ⟨s, _, te, he, rfl⟩ := h
-    have := bal_print e te he
-    refine isWrapped_of (body := [Tok.leaf s] ++ (if s = ['n', 'o', 't'] then [sp] else []) ++ te) (by simp) ?_
+    have := bal_wrapOperand e (bal_print e te he)
+    refine isWrapped_of (body := [Tok.leaf s] ++ (if s = ['n', 'o', 't'] then [sp] else []) ++ wrapOperand e te)
+      (by simp) ?_
     split <;> bal_close
   case binOp l op r =>
     simp only [print, hv, if_true, ↓reduceIte, bind, Option.bind_eq_some_iff, pure, Option.some.injEq] at h
     obtain ⟨tl, hl, s, _, tr, hr, rfl⟩ := h
-    have := bal_print l tl hl; have := bal_print r tr hr
-    refine isWrapped_of (body := tl ++ [sp, Tok.leaf s, sp] ++ tr) (by simp) ?_
+    have := bal_wrapOperand l (bal_print l tl hl); have := bal_wrapOperand r (bal_print r tr hr)
+    refine isWrapped_of (body := wrapOperand l tl ++ [sp, Tok.leaf s, sp] ++ wrapOperand r tr) (by simp) ?_
     bal_close
   case boolOp op vs =>
     simp only [print, hv, if_true, ↓reduceIte, bind, Option.bind_eq_some_iff, pure, Option.some.injEq] at h
     obtain ⟨tv, htv, h⟩ := h
-    have hv' := bal_printList vs tv htv
+    have hv' := bal_printOps vs tv htv
     split at h
     · simp only [Option.some.injEq] at h; subst h
       exact isWrapped_of (body := tv.flatten) (by simp) (bal_flatten hv')
@@ -39,8 +40,8 @@ theorem wrapped_print (e : Expr) (t : Toks) (hw : wraps e.kind = true) (hv : has
   case compare l ops cs =>
     simp only [print, hv, if_true, ↓reduceIte, bind, Option.bind_eq_some_iff, pure, Option.some.injEq] at h
     obtain ⟨tl, hl, tc, hc, rfl⟩ := h
-    have := bal_print l tl hl; have := bal_printCmp ops cs tc hc
-    refine isWrapped_of (body := tl ++ tc) (by simp) ?_
+    have := bal_wrapOperand l (bal_print l tl hl); have := bal_printCmp ops cs tc hc
+    refine isWrapped_of (body := wrapOperand l tl ++ tc) (by simp) ?_
     bal_close
   case tuple es =>
     simp only [print, hv, if_true, ↓reduceIte, bind, Option.bind_eq_some_iff, pure, Option.some.injEq] at h
@@ -66,5 +67,17 @@ theorem wrapped_print (e : Expr) (t : Toks) (hw : wraps e.kind = true) (hv : has
     have := bal_print v tv htv
     refine isWrapped_of (body := [Tok.leaf ['a', 'w', 'a', 'i', 't'], sp] ++ tv) (by simp) ?_
     bal_close
+
+/-- a child that is fine in its slot (`slotOK`) and needs parentheses there stands in the slot as one parenthesised
+group -/
+theorem wrapped_inSlot (p : Pos) (c : Expr) (t : Toks) (hok : slotOK p c = true)
+    (hn : needsParens p c.ck = true) (hp : print c = some t) : isWrapped (inSlot p c t) = true := by
+  simp only [slotOK, hn, Bool.not_true, Bool.false_or, Bool.or_eq_true, Bool.and_eq_true] at hok
+  rcases hok with ⟨hw, hv⟩ | ⟨hs, hk⟩
+  · have : isWeak c = false := by cases c <;> simp_all [wraps, Expr.kind, isWeak]
+    simp only [inSlot, wrapOperand, this, Bool.false_eq_true, if_false, ite_self]
+    exact wrapped_print c t hw hv hp
+  · simp only [inSlot, hs, if_true, wrapOperand, hk]
+    exact isWrapped_of (body := t) (by simp) (bal_print c t hp)
 
 end MakoModel.PyExpr
